@@ -640,9 +640,13 @@ def span_rule(prog, rep):
         if not spans:
             continue
         for e in f.all_elems():
-            if e.cls != "ArraySubscriptExpr":
+            # s[span + 1], &s[span + 1] and s + (span + 1) are one position
+            if e.cls == "ArraySubscriptExpr":
+                base, idx = norm(e.kid(0)), norm(e.kid(1))
+            elif e.cls == "BinaryOperator" and e.op == "+" and norm(e)[0] == "&" and norm(e)[1][0] == "[]":
+                base, idx = norm(e)[1][1], norm(e)[1][2]
+            else:
                 continue
-            base, idx = norm(e.kid(0)), norm(e.kid(1))
             for v, sarg in spans.items():
                 if base == sarg and idx == ir.B("+", v, ("c", 1)):
                     n += 1
